@@ -384,6 +384,20 @@ func evalC03(r *runner, u *parseUnit, c ParseCase) string {
 			r.col.NonTrivial(ev.Hash("F", u.src, strings.Join(c.Toks, " "), fmt.Sprint(c.FailAt)), nil)
 		}
 	}
+	// a second parser object at work inside one of the actions must not change
+	// anything (parser objects share no state)
+	if len(wantLog) > 0 {
+		k := (len(c.Toks)*7 + c.FailAt + 13) % len(wantLog)
+		o3 := u.ps.NewSession().ParseNested(u.ptoks(c.Toks), k, u.ptoks(c.Toks))
+		r.col.Eval()
+		if m := sane(u, c, o3); m != "" {
+			return m + fmt.Sprintf(" (while another parser object parsed the same input inside action call %d)", k)
+		}
+		if !o3.ErrNil || logString(o3.Log) != logString(wantLog) || !o3.Result.Equal(wantV) {
+			return fmt.Sprintf("grammar:\n%s\ninput %v: with another parser object parsing the same input inside action call %d, Parse returns err==nil: %v, %s with calls\n  %s\nexpected %s with calls\n  %s", u.src, c.Toks, k, o3.ErrNil, o3.Result, logString(o3.Log), wantV, logString(wantLog))
+		}
+		r.col.Class("nested_parser_object")
+	}
 	if nt {
 		r.col.NonTrivial(ev.Hash(u.src, strings.Join(c.Toks, " ")), func() any {
 			return map[string]any{"grammar": u.src, "input": c.Toks, "result": wantV.String(), "calls": logString(wantLog)}
